@@ -19,10 +19,10 @@ from . import MachineryError
 _start = re.compile(r'^\[ ?"(DG|E|D)"', re.M)
 
 
-def tlc_values(out):
+def tlc_values_iter(out):
+    """Yields (value, json text of the value) for every value TLC printed."""
     text = out.replace("<<", "[").replace(">>", "]")
     dec = json.JSONDecoder()
-    vals = []
     pos = 0
     while True:
         m = _start.search(text, pos)
@@ -32,9 +32,12 @@ def tlc_values(out):
             v, end = dec.raw_decode(text, m.start())
         except ValueError as e:
             raise MachineryError("unreadable TLC value at offset %d: %s: %r" % (m.start(), e, text[m.start() : m.start() + 200]))
-        vals.append(v)
+        yield v, text[m.start() : end]
         pos = end
-    return vals
+
+
+def tlc_values(out):
+    return [v for v, _ in tlc_values_iter(out)]
 
 
 # --------------------------------------------------------------------------
